@@ -75,13 +75,13 @@ Proof.
                    end
               else ({| tr_id := client; tr_reqs := []; tr_status := Paused Busy |}, conn, [])).
   assert (Htcp : tr_id (fst (fst tcp)) = client /\ Forall (req_ok (nlen st1)) (tr_reqs (fst (fst tcp))) /\
-                 c_client (snd (fst tcp)) = client).
+                 c_client (snd (fst tcp)) = client /\ tr_status (fst (fst tcp)) = Paused Busy).
   { unfold tcp. destruct (negb (c_clean conn)); [|cbn; auto].
     destruct (al_get str_eqb client (r_graveyard st1)) as [[ss|]|] eqn:Eg; try (cbn; auto).
     apply al_get_In_str in Eg. pose proof (ri_grave _ _ HI) as Hg. rewrite Forall_forall in Hg.
     apply Hg in Eg. unfold sess_ok in Eg. cbn [snd fst] in Eg. destruct Eg as (E1 & E2 & E3).
     cbn [fst snd set_c_subs c_client]. auto. }
-  destruct tcp as [[trk conn1] pubrels]. cbn [fst snd] in Htcp. destruct Htcp as (Htid & Hreqs & Hcl1).
+  destruct tcp as [[trk conn1] pubrels]. cbn [fst snd] in Htcp. destruct Htcp as (Htid & Hreqs & Hcl1 & Hbusy).
   set (conn2 := set_c_will conn1 None).
   assert (Hcl2 : c_client conn2 = client) by exact Hcl1.
   destruct (slab_insert (r_conns st1) conn2) as [conns id] eqn:Ec.
@@ -138,7 +138,9 @@ Proof.
   assert (Ho2 : occ (lives st2) id).
   { unfold lives, st2. cbn [r_conns]. eapply get_occ; eauto. }
   apply wp_bind. wp_use dbg_no_dups_spec; [exact HI2|exact Ho2|]. intros _ _.
-  wp_use reschedule_spec; [exact HI2|exact Ho2|]. intros st' (HI' & E' & N').
+  wp_use reschedule_gen; [exact HI2|exact Ho2| |].
+  { right. intros t0 Ht0. unfold st2 in Ht0. cbn [r_trackers] in Ht0. rewrite Htnew in Ht0. inversion Ht0; subst. exact Hbusy. }
+  intros st' (HI' & E' & N').
   split; [exact HI'|]. rewrite N'. exact Hn.
 Qed.
 
